@@ -277,7 +277,80 @@ def rule_sign(ctx: Ctx, data):
                     if ok2:
                         ok, why = ok2, why2 + " (through local aliases)"
                 ctx.ob("R-C02-4", f"{qual}/{field}", ok, f"{want}: {why}", node=node, mod=mod, statement=f"{field} = {norm(v)[:80]}")
+                # R-C02-6: an extent that is *extended* by a length must measure the text as written.  A cleaned value (a metadata field,
+                # the result of clean_pin_cite / strip / process_parenthetical) can be shorter than the characters it was taken from, so
+                # `end + len(cleaned)` stops before the text ends (" et seq." -> "et seq.": the span loses its last character)
+                ve2 = Locals(fn).expand(v, node, stop=nf)
+                for ln in [c_ for c_ in ast.walk(ve2) if isinstance(c_, ast.Call) and dotted(c_.func) == "len" and len(c_.args) == 1]:
+                    arg = ln.args[0]
+                    cleaned = [norm(a_)[:40] for a_ in ast.walk(arg) if (isinstance(a_, ast.Attribute) and isinstance(a_.value, ast.Attribute) and a_.value.attr == "metadata")
+                               or (isinstance(a_, ast.Call) and (dotted(a_.func) or "").split(".")[-1] in ("clean_pin_cite", "process_parenthetical", "strip", "rstrip", "lstrip", "strip_punct"))]
+                    if not cleaned:
+                        continue
+                    # a length *difference* (raw - cleaned) used to trim, and the backward party scan (R-C02-5), have their own analyses
+                    par_sub = any(isinstance(b_, ast.BinOp) and isinstance(b_.op, ast.Sub) and any(x_ is ln for x_ in ast.walk(b_.right)) for b_ in ast.walk(ve2))
+                    if par_sub or field in START_FIELDS:
+                        continue
+                    ctx.ob("R-C02-6", f"{qual}/{field}:len-of-cleaned-text", False,
+                           f"`{field}` is extended by `{norm(ln)[:60]}`, the length of a cleaned value ({cleaned}); cleaning strips characters, so the span can end "
+                           "before the text it is meant to contain -- measure the matched group itself (m[g] / m.end(g))", node=node, mod=mod,
+                           statement=f"{field} = {norm(v)[:80]}")
+    ctx.ob("R-C02-6", "span-overrides/lengths-measure-raw-text", True, f"{n} stores of span overrides inspected for lengths of cleaned values", node=None, mod=hm,
+           nontrivial=False)
     ctx.extra["span_override_stores"] = n
+
+
+def rule_group_anchoring(ctx: Ctx, data, rule: str = "R-C02-7"):
+    """An extent computed as `<end of the token> + len(m[g])` is right only if group g begins where the scanned text begins.  Decided on the
+    pattern: everything that precedes (?P<g>..) must be unable to consume a character (cross-language rule, Python x regex)."""
+    import re as _re
+
+    from .. import rx
+    from .c04 import dedupe_group_names
+
+    repo = ctx.repo
+    hm = repo.mod("helpers")
+    consts = data["regex_constants"]
+    n = 0
+    for qual, mod, fn in repo.all_funcs():
+        if mod.name != "helpers":
+            continue
+        mvars = {}
+        for s_ in stmts_local(fn.body):
+            if isinstance(s_, ast.Assign) and len(s_.targets) == 1 and isinstance(s_.targets[0], ast.Name) and isinstance(s_.value, ast.Call) \
+                    and dotted(s_.value.func) == "match_on_tokens" and len(s_.value.args) >= 3 and isinstance(s_.value.args[2], ast.Name):
+                fwd = next((k.value for k in s_.value.keywords if k.arg == "forward"), None)
+                if fwd is None or (isinstance(fwd, ast.Constant) and fwd.value is True):
+                    mvars[s_.targets[0].id] = s_.value.args[2].id
+        if not mvars:
+            continue
+        LW = Locals(fn)
+        for ln in [c for c in walk_local(fn) if isinstance(c, ast.Call) and dotted(c.func) == "len" and len(c.args) == 1]:
+            arg = LW.expand(ln.args[0], ln, stop=set(mvars))  # through locals: `pin = m['pin_cite']` ... `len(pin)`
+            subs = [x for x in ast.walk(arg) if isinstance(x, ast.Subscript) and isinstance(x.value, ast.Name) and x.value.id in mvars
+                    and isinstance(x.slice, ast.Constant) and isinstance(x.slice.value, str)]
+            if not subs:
+                continue
+            par = getattr(ln, "parent", None)
+            if isinstance(par, ast.BinOp) and isinstance(par.op, ast.Sub) and par.right is not ln and isinstance(par.right, ast.Call) and dotted(par.right.func) == "len":
+                continue  # len(raw) - len(cleaned): the width of what cleaning removed, independent of where the group starts
+            if isinstance(par, ast.BinOp) and isinstance(par.op, ast.Sub) and par.right is ln:
+                continue
+            if isinstance(par, ast.Compare):
+                continue  # two lengths compared with each other: no extent is computed from this one
+            for sub in subs:
+                g, patname = sub.slice.value, mvars[sub.value.id]
+                text = consts.get(patname)
+                if text is None:
+                    ctx.ob(rule, f"{qual}/len({sub.value.id}[{g!r}])", False, f"pattern constant {patname} not materialised", node=ln, mod=mod)
+                    continue
+                pat, copies = dedupe_group_names(text)
+                verdicts = [rx.group_starts_match(f"^(?:{pat})", _re.X, cp) for cp in copies.get(g, [g])]
+                n += 1
+                ctx.ob(rule, f"{qual}/len({sub.value.id}[{g!r}])", all(v is True for v in verdicts),
+                       f"`{norm(ln)[:50]}` measures an extent from the start of the scanned text, so group `{g}` of {patname} must begin where the match begins: "
+                       f"nothing before it in the pattern may consume a character (verdict per copy of the group: {verdicts})", node=ln, mod=mod)
+    ctx.ob(rule, "helpers/length-based-extents-anchored", n >= 1, f"{n} length-of-group terms checked against their patterns", node=None, mod=hm, nontrivial=False)
 
 
 def rule_accessors(ctx: Ctx):
@@ -387,6 +460,7 @@ def run(ctx: Ctx):
     ctx.guard(rule_group1, ctx, data)
     ctx.guard(rule_accessors, ctx)
     ctx.guard(rule_sign, ctx, data)
+    ctx.guard(rule_group_anchoring, ctx, data)
     M = AnnotateModel(ctx)
     if M.bal_fn is not None:
         ctx.ob("R-C02-1", f"utils.{M.bal_fn.name}/rebased", M.bal_ok, f"positions of matches on text[a:b] are rebased by a: {M.bal_why}", node=M.bal_fn, mod=M.um)
